@@ -39,7 +39,8 @@ EXPLANATION = (
     " R5 (generator totality, stonelint.totality): python_client completes for every route in the property's domain -- IR attribute reads defined for every reaching class (e.g. the error type's fields), raises/asserts unreachable or recorded preconditions."
     ' RC (call-condition drift, stonelint.effects.run_calls): for every call of a repository or imported-library function in the functions the property is anchored in, the path conditions of its occurrences are compared with reference/effects.json by truth table; an assignment under which the function used to make the call and now completes without it is a violation (tests on memo tables, emptiness of the iterated collection and earlier refusals excepted; re-spelled conditions are not claimed).'
     ' MK (memo-key rule, stonelint.memo): a memo table or done-set the reference tree does not have must be keyed by every access path the skipped code reads, injectively and type-aware.'
-    ' RI (interface drift, stonelint.interface): constants and tables (folded values), compiled regular expressions (witness text), parameter defaults, special methods, base classes and caching decorators of the modules the property rests on are compared with reference/interface.json; only a concrete difference in what is computed is reported.')
+    ' RI (interface drift, stonelint.interface): constants and tables (folded values), compiled regular expressions (witness text), parameter defaults, special methods, base classes and caching decorators of the modules the property rests on are compared with reference/interface.json; only a concrete difference in what is computed is reported.'
+    ' MU (mutation drift, stonelint.mutation): the functions the property rests on update in place only the caller-owned, class-level and module-level objects they updated on the confirmed tree, and have no new handler that swallows an exception (reference/mutations.json).')
 ASSUMPTIONS = ['C02-R5 (required fields precede optional ones in all_fields) is checked under C02',
                'pprint.pformat of a str/int/float/bool/None is a valid Python literal of the value']
 
@@ -352,6 +353,8 @@ def run(pm, ctx):
     memo.run(pm, ctx, 'C14-MK', OWN['C14'])
     from .. import interface
     interface.run(pm, ctx, 'C14-RI', OWN['C14'])
+    from .. import mutation
+    mutation.run(pm, ctx, 'C14-MU', OWN['C14'])
 
 
 def _parents_until(node, stop):
